@@ -66,14 +66,17 @@ PROFILES = {
     "C12": dict(sel=lambda f: bool(f["tags"] or f["events"] or f["deps"]) or f["idx"] % 7 == 0, pure=True,
                 events=["tag", "event", "dep", "invc", "invcn"], threads=1, heavy_inval=True),
     "C13": dict(sel=lambda f: f["fl"] != "t" or f["idx"] % 5 == 0, pure=True,
-                events=["invw", "invall", "invwn", "tag", "invc", "dep", "event"], threads=1, heavy_inval=True),
+                events=["invw", "invall", "invwn", "invwb", "tag", "invc", "dep", "event"], threads=1, heavy_inval=True),
     "C14": dict(pingpong=True, echo=True, sel=lambda f: True, pure=True, events=[], threads=4),
     "C20": dict(sel=lambda f: f["gates"] > 0, pure=False, events=[], threads=3, async_susp=True),
-    "C04": dict(sel=lambda f: f["limit"] is not None and not f["inval_on"], pure=True, events=["invw", "invall", "tag"], threads=2),
+    "C04": dict(sel=lambda f: f["limit"] is not None and not f["inval_on"], pure=True, events=["invw", "invall", "tag", "invwb"], threads=2),
+    # impure companions of C04: Result / invalidate_on / cache_if functions with an entry limit, scripted outcomes
+    "C04R": dict(refresh=True, lifetime=True, sel=lambda f: f["limit"] is not None and (f["is_result"] or f["inval_on"] or f["cache_if"]),
+                 pure=False, events=["tick", "invw", "invwb"], threads=1),
     "C05": dict(sel=lambda f: f["mem"] is not None, pure=False, events=["invw"], threads=2),
     "C06": dict(lifetime=True, sel=lambda f: f["ttl"] is not None, pure=True, events=["tick", "invw"], threads=2),
-    "C07": dict(pingpong=True, sel=lambda f: f["pol"] in ("fifo", "lru") and (f["limit"] or f["mem"]), pure=True, events=["invw", "invall"], threads=3),
-    "C08": dict(pingpong=True, sel=lambda f: f["pol"] in ("lfu", "arc", "tlru") and (f["limit"] or f["mem"]), pure=True, events=["invw", "tick"], threads=3),
+    "C07": dict(pingpong=True, sel=lambda f: f["pol"] in ("fifo", "lru") and (f["limit"] or f["mem"]), pure=True, events=["invw", "invall", "tag", "event", "dep", "invc"], threads=3),
+    "C08": dict(pingpong=True, sel=lambda f: f["pol"] in ("lfu", "arc", "tlru") and (f["limit"] or f["mem"]), pure=True, events=["invw", "tick", "tag", "invc"], threads=3),
     "C15": dict(sel=lambda f: f["fl"] != "t", pure=True, events=["sget", "sreset", "sgetn", "tick", "invw"], threads=3),
     "C19": dict(refresh=True, lifetime=True, sel=lambda f: True, pure=True, events=["tick", "tag", "invw", "sget"], threads=2),
     "C16": dict(sel=lambda f: True, pure=False, events=["tick", "tag", "event", "dep", "invc", "invw", "invall", "sget", "sreset"], threads=3),
@@ -270,7 +273,7 @@ def gen_refresh_case(r, fns, prof):
     for _ in range(r.below(3)):
         evs.append(ev(r.below(cap)))
     victim = 0 if r.chance(2, 3) else r.below(cap)
-    evs.append(ev(victim, inv=1, ln=r.pick(LENS)))
+    evs.append(ev(victim, inv=1, ln=r.pick(LENS + [200, 200])))
     for x in range(cap, cap + 1 + r.below(2)):
         evs.append(ev(x, ln=r.pick(LENS[:3])))
     order = list(range(cap + 2))
@@ -342,6 +345,9 @@ def gen_case(r, fns, prof, nev):
                 cap = 1 if f["sig"] == 3 else (f["limit"] or 3) + 2
                 xs = sorted(set(r.below(cap) for _ in range(r.below(3) + 1)))
                 evs.append("E %d invw %d %s" % (dt, f["idx"], ",".join(map(str, xs))))
+            elif kind == "invwb":
+                g = r.pick([h for h in chosen if h["fl"] != "t"] or chosen)
+                evs.append("E %d invwb %d %d" % (dt, g["idx"], r.below(4)))
             elif kind == "invwn":
                 evs.append("E %d invwn nosuch" % dt)
             elif kind == "invall":
@@ -370,7 +376,7 @@ def gen_case(r, fns, prof, nev):
             vcount += 1
             v = vcount
             ok = r.chance(2, 3) if f["is_result"] else True
-            ln = r.pick(LENS)
+            ln = r.pick(LENS + [200]) if any(g["mem"] for g in chosen) else r.pick(LENS)
         inv = 1 if r.chance(1, 3) else 0
         cif = 1 if r.chance(2, 3) else 0
         evs.append("E %d call %d %d %d %s %d %d %d %d" % (dt, f["idx"], x, tid, "ok" if ok else "err", v, ln, inv, cif))
